@@ -329,3 +329,54 @@ CONTRACTS[GP + 'GraphProcessor.get_graph@design-variable-values'] = dict(
     modifies=[],
     no_frame=True,
 )
+
+
+# ---- _get_des_vars, connection-choice part: design-variable index ranges and the existence-infeasibility mask (C01, C03)
+# Variant: existence maps are arrays indexed by the selection-choice combination (the complete encoder, no cut-off);
+# the dict-shaped maps of the fast encoder take the other branch of `isinstance(exist_map, dict)` and leave the mask alone.
+CLASSES['DesVar']['node'] = 'Ref'
+CONTRACTS[GP + 'GraphProcessor._get_des_vars@connection-choices'] = dict(
+    properties=['C01', 'C03', 'C04'],
+    start_at='existence_infeasibility_mask = np.ones((n_combs,), dtype=bool)',
+    stop_before='des_vars += [DesVar.from_des_var_node',
+    types={'self': 'Ref[GraphProcessor]'},
+    live={'des_vars': 'List[Ref[DesVar]]', 'n_combs': 'Int', 'cutoff_mode': 'Bool', 'permanent_nodes': 'Set[Ref]'},
+    locals={'conn_choice_data_map': 'Dict[Ref,Tuple[Ref,Ref,Np1[Int],Int,Int,Ref]]', 'existence_infeasibility_mask': 'Np1[Bool]',
+            'conn_des_vars': 'List[Ref[DesVar]]', 'exist_map': 'Np1[Int]'},
+    requires={'n': 'n_combs >= 0', 'choices-distinct': 'forall(a, 0, len(self.connection_choice_nodes), forall(b, 0, len(self.connection_choice_nodes), implies(a != b, self.connection_choice_nodes[a] != self.connection_choice_nodes[b])))'},
+    # EM(choice) / NV(choice): the existence map and the number of design variables _encode_connection_choice yields
+    funcs={'EM': (['Ref'], 'Np1[Int]'), 'NV': (['Ref'], 'Int')},
+    calls={'self._encode_connection_choice': dict(
+        params=['choice_node'], types={}, returns='Tuple[Ref,List[Ref[DesVar]],Ref,Np1[Int],Ref]', modifies=[], assumed=True, receiver='self',
+        ensures=['result[3] == EM(choice_node)', 'len(result[1]) == NV(choice_node)', 'NV(choice_node) >= 0',
+                 'implies(not cutoff_mode, len(EM(choice_node)) == n_combs)'])},
+    defs={'ccn': ((), 'self.connection_choice_nodes'),
+          'offs': (('k',), 'ite(k == 0, old(len(des_vars)), 0)')},
+    loops={
+        'for choice_node in self.connection_choice_nodes': dict(index='k', invariant={
+            'mask-len': 'len(existence_infeasibility_mask) == n_combs',
+            'mask': 'implies(not cutoff_mode, forall(c, 0, n_combs, existence_infeasibility_mask[c] == forall(j, 0, k, EM(ccn()[j])[c] != -1)))',
+            'mask-untouched-in-cutoff-mode': 'implies(cutoff_mode, forall(c, 0, n_combs, existence_infeasibility_mask[c]))',
+            'entries': 'forall(j, 0, k, ccn()[j] in conn_choice_data_map)',
+            'ranges-consecutive': 'forall(j, 0, k, conn_choice_data_map[ccn()[j]][4] - conn_choice_data_map[ccn()[j]][3] == NV(ccn()[j]) and '
+                                  'conn_choice_data_map[ccn()[j]][3] == ite(j == 0, old(len(des_vars)), conn_choice_data_map[ccn()[j - 1]][4]))',
+            'length': 'implies(k > 0, len(des_vars) == conn_choice_data_map[ccn()[k - 1]][4]) and implies(k == 0, len(des_vars) == old(len(des_vars)))',
+            'maps-kept': 'forall(j, 0, k, conn_choice_data_map[ccn()[j]][2] == EM(ccn()[j]))',
+        }),
+        'for conn_des_var in conn_des_vars': dict(index='q', invariant={}),
+    },
+    ensures={
+        # statement of C01's mechanism "infeasible existence patterns mapped to -1 and masked out": a combination stays
+        # admissible exactly if no connection choice maps it to the "no valid connection set" marker
+        'mask-is-conjunction-over-all-connection-choices': ('property',
+            'implies(not cutoff_mode, forall(c, 0, n_combs, existence_infeasibility_mask[c] == forall(j, 0, len(ccn()), EM(ccn()[j])[c] != -1)))'),
+        'variable-ranges-are-consecutive-and-sized': ('property',
+            'forall(j, 0, len(ccn()), conn_choice_data_map[ccn()[j]][4] - conn_choice_data_map[ccn()[j]][3] == NV(ccn()[j]) and '
+            'conn_choice_data_map[ccn()[j]][3] == ite(j == 0, old(len(des_vars)), conn_choice_data_map[ccn()[j - 1]][4]))'),
+        'all-variables-appended': ('property', 'implies(len(ccn()) > 0, len(des_vars) == conn_choice_data_map[ccn()[len(ccn()) - 1]][4])'),
+        'no-connection-choice-no-variable': ('property', 'implies(len(ccn()) == 0, len(des_vars) == old(len(des_vars)))'),
+        'existence-map-stored-with-its-choice': ('property', 'forall(j, 0, len(ccn()), conn_choice_data_map[ccn()[j]][2] == EM(ccn()[j]))'),
+    },
+    no_frame=True,
+)
+CLASSES['GraphProcessor']['connection_choice_nodes'] = 'List[Ref]'
